@@ -181,6 +181,10 @@ class Package:
                     callee = self.record_method(file, f.attr)
                     if usable(callee):
                         return callee, f.value
+                    # .. or a factory classmethod of such a record class called on the class itself (`self.Jacobian.from_dense(..)`)
+                    callee = self.record_method(file, f.attr, classmethod_of=ast.unparse(f.value).split(".")[-1])
+                    if usable(callee):
+                        return callee, f.value
                 return None
             # dispatch through a class-level table of the class's own functions (`self.T.get(key)(self, value)`) is the chain of
             # method calls it abbreviates: the helpers can then be put back
@@ -203,7 +207,7 @@ class Package:
             cache[key] = fn
         return cache[key]
 
-    def record_method(self, file: str, name: str):
+    def record_method(self, file: str, name: str, classmethod_of: str | None = None):
         """The plain method `name` of a record class (@dataclass / NamedTuple) of module `file`, provided the call `<value>.name(..)`
         can mean nothing else in that module: exactly one class of the file defines a method of that name, and it is not the name
         of a method of the built-in str / list / dict / set / tuple / Path-like values.  None otherwise."""
@@ -216,6 +220,12 @@ class Package:
         is_rec = any(b.split(".")[-1] == "NamedTuple" for b in ci.bases) or \
             any(ast.unparse(d).split("(")[0].split(".")[-1] == "dataclass" for d in ci.node.decorator_list)
         fn = ci.methods[name]
+        if classmethod_of is not None:
+            # the @classmethod `name` of the record class `classmethod_of` (the receiver names the class)
+            if not is_rec or not isinstance(fn, ast.FunctionDef) or [ast.unparse(d) for d in fn.decorator_list] != ["classmethod"] or not fn.args.args \
+                    or ci.node.name != classmethod_of:
+                return None
+            return fn
         if not is_rec or not isinstance(fn, ast.FunctionDef) or fn.decorator_list or not fn.args.args:
             return None
         if any(k in ci.methods for k in ("__getattr__", "__getattribute__")):
